@@ -1402,3 +1402,59 @@ func c20AppLimitedAndMTU(c *Ctx) {
 		}
 	}
 }
+
+// C18.6: the request body is only ever read through the cancelingReader (which resets the stream when the body
+// source fails): the raw body parameter is used for Close and as the wrapped reader, nothing else.
+func c18BodyThroughCancelingReader(c *Ctx) {
+	const R = "C18.6"
+	f := c.fn(h3, "ClientConn", "sendRequestBody")
+	var body *ssa.Parameter
+	for _, p := range f.Params {
+		if p.Name() == "body" {
+			body = p
+		}
+	}
+	if body == nil || body.Referrers() == nil {
+		c.Bad(R, "origin:request body read through the cancelingReader", c.P.Pos(f.Pos()), "parameter body not found")
+		return
+	}
+	n, bad := 0, ""
+	var visit func(v ssa.Value, d int)
+	visit = func(v ssa.Value, d int) {
+		if v.Referrers() == nil || d > 3 {
+			return
+		}
+		for _, r := range *v.Referrers() {
+			switch x := r.(type) {
+			case *ssa.Defer:
+				// defer body.Close()
+				if x.Call.IsInvoke() && x.Call.Method.Name() == "Close" {
+					continue
+				}
+				bad = "deferred use other than Close at " + c.P.InstrPos(r)
+			case *ssa.Store:
+				// stored into the cancelingReader literal's r field
+				if fa, ok := x.Addr.(*ssa.FieldAddr); ok && fieldOfAddr(fa).Name() == "r" {
+					if nm := namedOf(derefType(fa.X.Type())); nm != nil && nm.Obj().Name() == "cancelingReader" {
+						n++
+						continue
+					}
+				}
+				bad = "stored somewhere else at " + c.P.InstrPos(r)
+			case *ssa.ChangeInterface:
+				visit(x, d+1)
+			case *ssa.MakeInterface:
+				visit(x, d+1)
+			case *ssa.DebugRef:
+			default:
+				if ci, ok := r.(ssa.CallInstruction); ok && ci.Common().IsInvoke() && ci.Common().Method.Name() == "Close" {
+					continue
+				}
+				bad = fmt.Sprintf("%T at %s", r, c.P.InstrPos(r))
+			}
+		}
+	}
+	visit(body, 0)
+	c.Check(n >= 1 && bad == "", R, "origin:request body read through the cancelingReader", c.P.Pos(f.Pos()),
+		"a body source that fails mid-stream must cancel the request stream (H3_REQUEST_CANCELLED); read directly, the failure ends the stream with a clean FIN and the server sees a truncated body as complete"+map[bool]string{true: "", false: " — body is used: " + bad}[bad == ""])
+}
